@@ -8,6 +8,7 @@ import (
 	"fmt"
 	"reflect"
 	"sort"
+	"strings"
 	"sync"
 	"sync/atomic"
 )
@@ -104,6 +105,11 @@ type Run struct {
 	sitePol  map[string]int
 	DefPol   int // -1: draw per site (swarm); else fixed policy for all sites
 	Pinned   map[string][]int // site -> explicit permutation of the sorted keys
+	// PinKeys pins, at every site whose id starts with PinSitePrefix, the visit order of any
+	// string-keyed map whose sorted key set (joined by ",") is listed: new[i] = sorted[perm[i]]
+	PinKeys       map[string][]int
+	PinSitePrefix string
+	PinHits       int
 	PinOnce  map[string]bool
 	NonCanon map[string]int // site -> executions with >=2 keys and a non-canonical order
 	MultiKey map[string]int // site -> executions with >=2 keys
@@ -123,7 +129,7 @@ var active atomic.Pointer[Run]
 func NewRun(seed uint64) *Run {
 	return &Run{Seed: seed, r: newRng(seed), digest: 14695981039346656037, sitePol: map[string]int{}, DefPol: -1,
 		NonCanon: map[string]int{}, MultiKey: map[string]int{}, Probes: map[string]int{},
-		MaxSteps: 20_000_000, MaxKeys: 5_000_000}
+		MaxSteps: 5_000_000, MaxKeys: 2_000_000}
 }
 
 // NewReplay creates a run served from a recorded draw log.
@@ -278,6 +284,18 @@ func Keys[M ~map[K]V, K comparable, V any](site string, m M) []K {
 	}
 	if sk, ok := any(ks).([]string); ok {
 		sort.Strings(sk)
+		if r.PinKeys != nil && strings.HasPrefix(site, r.PinSitePrefix) {
+			if perm, ok := r.PinKeys[strings.Join(sk, ",")]; ok && len(perm) == len(sk) {
+				applyPerm(perm, func(i, j int) { ks[i], ks[j] = ks[j], ks[i] })
+				r.mu.Lock()
+				r.MultiKey[site]++
+				r.NonCanon[site]++
+				r.PinHits++
+				r.hash(site, len(ks), -3)
+				r.mu.Unlock()
+				return ks
+			}
+		}
 	} else {
 		sort.Slice(ks, func(i, j int) bool { return lessAny(ks[i], ks[j]) })
 	}
